@@ -212,6 +212,16 @@ Section Cont.
     repeat split; auto; try lia; try (intros x E; apply HQ; now apply H4).
   Qed.
 
+  (** a child decoder with an [ispec] contract, on the spine *)
+  Lemma cacc_child {A B} p w a (c : prog A) (f : A -> prog B) W Al s W1 A1 Q :
+    ispec d c p s W1 A1 -> w + W1 <= W -> a + A1 <= Al ->
+    (forall x, cacc (p - 8 + s) (w + W1) (a + A1) (f x) W Al Q) ->
+    cacc p w a (bind c f) W Al Q.
+  Proof.
+    intros Hc Hw Ha Hf. eapply cacc_bind; [apply csat_of_ispec; exact Hc|exact Hw|exact Ha|].
+    cbn beta. intros x p1 ->. apply Hf.
+  Qed.
+
   (** *** positional contracts of the primitives *)
   Lemma csat_rd_u p w : (0 < w)%nat ->
     csat p (rd_u w) (1 + N.of_nat w) 0
